@@ -747,6 +747,14 @@ func getAngle(token Token) (utils.Fl, bool) {
 	return 0, false
 }
 
+// same as getAngle, but also accepts the unitless zero allowed by CSS Transforms
+func getAngleOrZero(token Token) (utils.Fl, bool) {
+	if n, ok := token.(pa.Number); ok && n.ValueF == 0 {
+		return 0, true
+	}
+	return getAngle(token)
+}
+
 // Return the value in dppx of a <resolution> token, or false.
 func getResolution(token Token) (utils.Fl, bool) {
 	if dim, ok := token.(pa.Dimension); ok {
@@ -3900,19 +3908,19 @@ func transformFunction(token Token) (pr.SDimensions, error) {
 	}
 	switch len(args) {
 	case 1:
-		angle, notNone := getAngle(args[0])
+		angle, notNone := getAngleOrZero(args[0])
 		length := getLength(args[0], true, true)
 		switch name {
 		case "rotate":
-			if notNone && angle != 0 {
+			if notNone {
 				return pr.SDimensions{String: "rotate", Dimensions: []pr.Dimension{pr.FToD(pr.Fl(angle))}}, nil
 			}
 		case "skewx", "skew":
-			if notNone && angle != 0 {
+			if notNone {
 				return pr.SDimensions{String: "skew", Dimensions: []pr.Dimension{pr.FToD(pr.Fl(angle)), pr.ZeroPixels}}, nil
 			}
 		case "skewy":
-			if notNone && angle != 0 {
+			if notNone {
 				return pr.SDimensions{String: "skew", Dimensions: []pr.Dimension{pr.ZeroPixels, pr.FToD(pr.Fl(angle))}}, nil
 			}
 		case "translatex", "translate":
@@ -3942,6 +3950,13 @@ func transformFunction(token Token) (pr.SDimensions, error) {
 		}
 		if name == "translate" && isAllLengths {
 			return pr.SDimensions{String: name, Dimensions: lengths}, nil
+		}
+		if name == "skew" {
+			ax, ok1 := getAngleOrZero(args[0])
+			ay, ok2 := getAngleOrZero(args[1])
+			if ok1 && ok2 {
+				return pr.SDimensions{String: "skew", Dimensions: []pr.Dimension{pr.FToD(pr.Fl(ax)), pr.FToD(pr.Fl(ay))}}, nil
+			}
 		}
 	case 6:
 		if name == "matrix" && isAllNumber {
